@@ -867,4 +867,44 @@ ldb_atomic__fetch_add(long *object, long operand) {
 
 #endif /* !LDB_PTHREAD_ATOMICS */
 
+/*
+ * Verification Hook (off unless LCDB_VERIF is defined)
+ *
+ * Gives a deterministic scheduler a yield point before every
+ * atomic access. The access itself is unchanged.
+ */
+
+#if defined(LCDB_VERIF) && defined(LDB_GNUC_ATOMICS)
+
+#ifdef __cplusplus
+extern "C"
+#endif
+void
+ldb_verif_atomic_point(const volatile void *addr, int kind);
+
+#undef ldb_atomic_store
+#undef ldb_atomic_store_ptr
+#undef ldb_atomic_load
+#undef ldb_atomic_load_ptr
+#undef ldb_atomic_fetch_add
+#undef ldb_atomic_fetch_sub
+
+#define ldb_atomic_store(object, desired, order) \
+  (ldb_verif_atomic_point(object, 1), __atomic_store_n(object, desired, order))
+
+#define ldb_atomic_store_ptr ldb_atomic_store
+
+#define ldb_atomic_load(object, order) \
+  (ldb_verif_atomic_point(object, 0), __atomic_load_n(object, order))
+
+#define ldb_atomic_load_ptr ldb_atomic_load
+
+#define ldb_atomic_fetch_add(object, operand, order) \
+  (ldb_verif_atomic_point(object, 2), __atomic_fetch_add(object, operand, order))
+
+#define ldb_atomic_fetch_sub(object, operand, order) \
+  (ldb_verif_atomic_point(object, 2), __atomic_fetch_sub(object, operand, order))
+
+#endif /* LCDB_VERIF && LDB_GNUC_ATOMICS */
+
 #endif /* LDB_ATOMICS_H */
